@@ -34,6 +34,8 @@ def check(run, only=None):
     if only is None:
         # the same property decided from BYTES by the whole specification pipeline (Lexer -> Parser -> Exec)
         simple.gen_and_replay(run, "C03_Src", nontrivial=nontrivial, sigfn=sigfn, check_log=False, deadline_ms=3000)
+        # text inside any nesting of the body-opening tags (balanced fragment sequences of a grammar), again from bytes
+        simple.gen_and_replay(run, "Mix_Src", nontrivial=nontrivial, sigfn=sigfn, check_log=False, deadline_ms=3000)
 
 
 def replay(run, path):
